@@ -298,6 +298,10 @@ def run(prog, rep, tier, snap):
     rep.call(fillers.r01_9, prog, rep)
     rep.rule("R01.10", "inside the expansion loop the stepped cursor moves by INTERVAL and modular reduction only", 5)
     rep.call(fillers.r01_10, prog, rep)
+    rep.rule("R01.11", "BY-lists are unrolled whole, never cut down to the number of results wanted", 3)
+    rep.call(fillers.r01_11, prog, rep)
+    rep.rule("R01.12", "a month taken from yd_to_md() is packed into a candidate set only when it is at most 12", 3)
+    rep.call(fillers.r01_12, prog, rep)
     rep.rule("R01.8", "a mask duplicated for wrap-around is clamped to the width it was duplicated by", 1)
     rep.call(fillers.r01_8, prog, rep)
     rep.rule("R01.7", "range tests against 0 are not evaluated in unsigned arithmetic when an operand is signed", 2)
